@@ -1,5 +1,6 @@
 import RedisGoModel.Driver.Util
 import RedisGoModel.Exec.Dispatch
+import RedisGoModel.Conc.TraceCheck
 /-! exec engine: `R` resets the model keyspace; `X <keys|*|-> <argv…> => <t0> <t1> <reply> <dump> fl=<…>` replays one command
     on the model and compares the reply (decoded by the verified decoder `Resp.decode`) and the dumped keys (live view). -/
 namespace Driver
@@ -87,6 +88,32 @@ def compareDump (db : Db) (spec dump : String) (t : Int) (strict : Bool := false
         | none => none
     else none
 
+/-- `ev=L12,get:db:12,U12` (hook H2) → events; `none` if malformed -/
+def parseEvents (s : String) : Option (List TraceCheck.Ev) :=
+  let body := (s.drop 3).toString
+  if body == "-" then some [] else
+  (body.splitOn ",").mapM fun it =>
+    if it.startsWith "RL" then (it.drop 2).toString.toNat?.map (TraceCheck.Ev.lock false)
+    else if it.startsWith "RU" then (it.drop 2).toString.toNat?.map (TraceCheck.Ev.unlock false)
+    else if it.startsWith "L" then (it.drop 1).toString.toNat?.map (TraceCheck.Ev.lock true)
+    else if it.startsWith "U" then (it.drop 1).toString.toNat?.map (TraceCheck.Ev.unlock true)
+    else match it.splitOn ":" with
+      | [kind, _map, pos] => pos.toNat?.map (TraceCheck.Ev.access (kind != "get"))
+      | _ => none
+
+/-- lock discipline of one command's event trace -/
+def checkEvents (rest : List String) : Option String :=
+  match rest with
+  | [ev] =>
+    match parseEvents ev with
+    | none => some s!"malformed event trace {ev}"
+    | some evs =>
+      if TraceCheck.ok evs then none
+      else match TraceCheck.firstBad {} evs 0 with
+        | some i => some s!"lock discipline violated at event {i} of {ev}"
+        | none => some s!"a stripe is still held when the command returns: {ev}"
+  | _ => none
+
 /-- returns (new state, verdict): `ok nontrivial` or `error detail` -/
 def execLine (st : ExecSt) (fs : List String) : ExecSt × Option (Except String Bool) :=
   match fs with
@@ -96,9 +123,12 @@ def execLine (st : ExecSt) (fs : List String) : ExecSt × Option (Except String 
     if st.dead then (st, some (.ok false)) else
     match argvS.mapM unhex, obsS with
     | some argv, ["=>", "SKIP"] => (st, some (.ok false))
-    | some argv, ["=>", t0, t1, reply, dump, fl] =>
+    | some argv, "=>" :: t0 :: t1 :: reply :: dump :: fl :: evRest =>
       match t0.toInt?, t1.toInt? with
       | some t0, some t1 =>
+        match checkEvents evRest with
+        | some bad => ({ st with dead := true }, some (.error bad))
+        | none =>
         if reply == "PANIC" || reply == "HANG" || reply == "NIL" then
           ({ st with dead := true }, some (.error s!"implementation {reply}"))
         else
